@@ -3,7 +3,7 @@
 From Coq Require Import String.
 From Coq Require Import List Ascii ZArith Bool Lia.
 From CGV Require Import Base.PyBase Base.PyVal Base.NxGraph Resolve.Bonding Resolve.GraphOps Resolve.Pipeline
-     Resolve.MapDefs Resolve.Witness Resolve.MapProofs Resolve.CopyProofs.
+     Resolve.MapDefs Resolve.Witness Resolve.MapProofs Resolve.CopyProofs Resolve.PipelineFull Resolve.FragidProofs.
 Import ListNotations.
 Open Scope Z_scope.
 
@@ -75,6 +75,17 @@ Proof. exact stamped_other. Qed.
 Theorem C02_fragid_is_coarse_key : forall fd meta mol fgs, wf_dict fd -> resolve_disconnected fd meta = Ok (mol, fgs) ->
   fine_inv (flat_map (real_of fd) meta) mol.
 Proof. exact resolve_disconnected_inv. Qed.
+(** frag_exact / frag_cover for the RETURNED coarse graphs of a whole (end-to-end) step: a node of coarse node k's
+    graph is a fine node recording k, and k is the key of a coarse node with a fragment *)
+Theorem C02_step_frag_exact : forall legacy aa fd prev car fo k g, wf_dict fd -> wf_attrs fd ->
+  resolve_step_full legacy aa fd prev car = Ok fo -> In (k, g) (fo_fgs fo) ->
+  forall n, In n (node_keys g) -> records (fo_m6 fo) n k /\ In k (flat_map (real_of fd) (fo_meta fo)).
+Proof. exact step_frag_exact. Qed.
+(** every fragid value of the returned fine graph is a list of keys of coarse nodes with a fragment *)
+Theorem C02_step_fragid_real : forall legacy aa fd prev car fo, wf_dict fd -> wf_attrs fd ->
+  resolve_step_full legacy aa fd prev car = Ok fo -> fid_inv (flat_map (real_of fd) (fo_meta fo)) (fo_mol fo).
+Proof. exact step_fid_inv. Qed.
+
 (** non-vacuity: the templates of the witness dictionary are well formed *)
 Example C02_wf_nonvacuous : exists tA tB, fd_get (S "A") fd_AB = Some tA /\ fd_get (S "B") fd_AB = Some tB /\ wf_template tA /\ wf_template tB.
 Proof.
@@ -88,6 +99,8 @@ Qed.
 Print Assumptions C02_frag_copy.
 Print Assumptions C02_disc_step_copy.
 Print Assumptions C02_fragid_is_coarse_key.
+Print Assumptions C02_step_frag_exact.
+Print Assumptions C02_step_fragid_real.
 Print Assumptions C02_frag_exact.
 Print Assumptions C02_frag_cover.
 Print Assumptions C02_fragid_singleton.
